@@ -8,6 +8,7 @@ import TzVerif.Model.DateTime
 import TzVerif.Spec.Calendar
 import TzVerif.Proofs.Calendar
 import TzVerif.Proofs.SrcEqCal
+import TzVerif.Generated.StableC01   -- per run: the current translation (SrcNow) equals the baseline (Src) these theorems are about
 
 namespace TzVerif.C01
 open TzVerif.Model TzVerif.Gen
